@@ -22,11 +22,11 @@ RULE = ('cases are schedules: every single-preemption schedule (thread A runs k 
         'by a custom handler), seeded random multi-preemption schedules of 3-4 threads, and free-running stress with a 1 us switch '
         'interval; a schedule is non-trivial when a preemption actually happened while the preempted request was inside clastic; '
         'distinct by (pair, preemption point) resp. hash of the switch list')
-EXHAUSTIVE = {'quick': 'all single-preemption schedules at line granularity of all 81 ordered pairs of request kinds',
+EXHAUSTIVE = {'quick': 'all single-preemption schedules at line granularity of all 81 ordered pairs of request kinds, on a warm application and on an application that never served a request',
               'thorough': 'the same at line granularity plus opcode granularity inside application.py'}
 ASSUMPTIONS = ['threads are serialised by the scheduler: interleavings inside C-level calls are not explored (atomic under the GIL)',
                'application code supplied by the harness is itself thread-safe and is not a preemption point']
-REQUIRED_REACH = ['schedules:single-preemption', 'schedules:random-multi', 'stress:responses-compared', 'both-in-dispatch',
+REQUIRED_REACH = ['schedules:single-preemption', 'schedules:single-preemption-on-fresh-application', 'schedules:random-multi', 'stress:responses-compared', 'both-in-dispatch',
                   'request-ids-collected', 'preempted-inside:application.py', 'preempted-inside:route.py',
                   'preempted-inside:sinter-generated', 'kind:echo', 'kind:404', 'kind:405', 'kind:fallthrough', 'kind:boom',
                   'kind:redirect', 'kind:render', 'kind:httperr']
@@ -209,6 +209,20 @@ def single_preemption(cx, pairs, opcode=False):
             sh.hit('schedules:single-preemption')
             n_eval += 1
             n_nt += bool(s.switches)
+        if not opcode:
+            # the same schedules against an application that has never served a request: lazily built state
+            # (caches, tables) is under construction exactly once in an application's life
+            fresh0 = build_app()
+            nf = sched.count_points(job_for(fresh0, make_request(ka, ta)), ROOTS, opfiles)
+            for k in range(1, nf + 1):
+                fresh = build_app()
+                s = sched.Scheduler(2, sched.preempt_once(k), ROOTS, opfiles)
+                res = s.run([job_for(fresh, make_request(ka, ta)), job_for(fresh, make_request(kb, tb))])
+                case = {'mode': 'single', 'a': ka, 'b': kb, 'k': k, 'opcode': opcode, 'fresh': True}
+                cx.judge([ka, kb], [ta, tb], res, s, case, 'single-fresh')
+                sh.hit('schedules:single-preemption-on-fresh-application')
+                n_eval += 1
+                n_nt += bool(s.switches)
             if k == max(1, na // 2):
                 sh.sample('single-%s-%s' % (ka, kb), {'pair': [ka, kb], 'points_of_A': na, 'k': k,
                                                       'switches': [list(x) for x in s.switches[:4]]})
@@ -328,7 +342,11 @@ def replay(sh, case, spec):
         ka, kb = case['a'], case['b']
         ta, tb = 'A' + ka, 'B' + kb
         s = sched.Scheduler(2, sched.preempt_once(case['k']), ROOTS, opfiles)
-        res = s.run([job_for(cx.app, make_request(ka, ta)), job_for(cx.app, make_request(kb, tb))])
+        app = build_app() if case.get('fresh') else cx.app
+        if case.get('fresh'):
+            cx.alone(ka, ta)
+            cx.alone(kb, tb)
+        res = s.run([job_for(app, make_request(ka, ta)), job_for(app, make_request(kb, tb))])
         cx.judge([ka, kb], [ta, tb], res, s, case, 'single')
         sh.notes['switches'] = [list(x) for x in s.switches]
     elif case.get('mode') == 'random':
